@@ -29,7 +29,32 @@ template<class Opt>
 long root_id(const Opt& r)
 {
     if (!r.has_value()) return 0;
-    return value_id(*r);
+    if constexpr (std::is_same_v<std::decay_t<decltype(*r)>, ctpg::no_type>) return 0;
+    else return value_id(*r);
+}
+
+#ifndef VF_CSTR_MAX
+#define VF_CSTR_MAX 20
+#endif
+// parse through cstring_buffer<N> for a text length chosen at run time (one instantiation per length up to VF_CSTR_MAX)
+template<size_t N, class P>
+void run_cstr(const P& p, const std::string& input, CaseOut& c)
+{
+    if (input.size() + 1 == N)
+    {
+        char arr[N] = {};
+        std::memcpy(arr, input.data(), input.size());
+        ctpg::buffers::cstring_buffer<N> b(arr);
+        S.base = b.get_view(b.begin(), b.end()).data(); S.blen = input.size();
+        std::ostringstream ss;
+        {
+            auto r = p.parse(b, ss);
+            c.res = r.has_value(); c.root = root_id(r);
+        }
+        c.stream = ss.str();
+    }
+    else if constexpr (N < VF_CSTR_MAX) run_cstr<N + 1>(p, input, c);
+    else c.res = -3;
 }
 
 // plain grammars (no contextual functors)
@@ -103,6 +128,13 @@ void run_plain(const P& p, int gi, long idx, int mode, const std::string& input)
             c.stream = ss.str();
             c.cb[0] = b.derefs; c.cb[1] = b.oob_deref; c.cb[2] = b.oob_form; c.cb[3] = b.bad_view; c.cb[4] = b.eof_reads; c.cb[5] = b.max_read;
             c.extra = b.first_bad;
+            break;
+        }
+        c.res = -2; break;
+        case 11:
+        if VF_ON(11)
+        {
+            run_cstr<1>(p, input, c);
             break;
         }
         c.res = -2; break;
